@@ -108,7 +108,7 @@ func filterTableExpressions(statement sqlparser.Statement) (sqlparser.TableExprs
 
 func isSupportedSQLVal(val *sqlparser.SQLVal) bool {
 	switch val.Type {
-	case sqlparser.PgEscapeString, sqlparser.HexVal, sqlparser.StrVal, sqlparser.PgPlaceholder, sqlparser.ValArg, sqlparser.IntVal:
+	case sqlparser.PgEscapeString, sqlparser.HexVal, sqlparser.HexNum, sqlparser.StrVal, sqlparser.PgPlaceholder, sqlparser.ValArg, sqlparser.IntVal:
 		return true
 	}
 	return false
